@@ -246,6 +246,7 @@ class Node:
     def __init__(self, pr, bfglog):
         self.pr = pr
         self.bfglog = bfglog
+        self.skips = 0
 
     def invocations(self):
         if not os.path.exists(self.bfglog):
@@ -294,7 +295,12 @@ def make_node(root, variant, backend):
 def check_node(node, hist, viol):
     """after the last edit of `hist`: run the tool, compare with a fresh configure, converge"""
     pr = node.pr
+    cachep = os.path.join(pr.bld, '.bfg_find_cache')
+    c0 = os.stat(cachep).st_mtime_ns if os.path.exists(cachep) else None
     rc, out, inv = node.run_tool()
+    if rc == 0 and any('--lazy' in i for i in inv) and c0 is not None and os.path.exists(cachep) and \
+            os.stat(cachep).st_mtime_ns == c0:
+        node.skips += 1        # bfg9000 was started and decided not to regenerate
     label = ' ; '.join(hist)
     now = primary(pr.bld, pr.backend)
     fresh, err = node.fresh()
@@ -374,7 +380,7 @@ def _explore(arg):
                     states += 1
         frontier = nxt
     shutil.rmtree(root, ignore_errors=True)
-    return variant, backend, viol, states, transitions
+    return variant, backend, viol, states, transitions, node.skips
 
 
 def run(ctx):
@@ -390,7 +396,9 @@ def run(ctx):
     res = core.pmap(_explore, core.seeded_order(shards, ctx.seed))
     allv = []
     states = transitions = 0
-    for v, b, viol, st, tr in res:
+    skips = 0
+    for v, b, viol, st, tr, sk in res:
+        skips += sk
         states += st
         transitions += tr
         for law, label, detail in viol:
@@ -406,6 +414,10 @@ def run(ctx):
                       case=dict(variant=v, backend=b, history=label.split(' ; ')), observed=detail)
     if transitions < 100:
         raise core.HarnessError('vacuous C08 exploration')
+    if skips == 0:
+        # not a violation (skipping is an optimisation), but then "skipped only when identical" was
+        # never exercised: say so
+        print('NOTE C08: bfg9000 never skipped a lazy regeneration in this exploration')
     ctx.level = 'model_checking'
     ctx.cov.update(
         states=states, transitions=transitions, traces_validated_against_impl=transitions,
@@ -417,7 +429,7 @@ def run(ctx):
              'through a counting wrapper); oracles: build files byte-identical to a fresh configure into the same '
              'path, auxiliary files equal as sets, a second tool run invokes bfg9000 zero times'
              % (variants, depth, len(OPS), [o for o, _ in OPS]),
-        exhaustive=True, variants=len(variants), depth=depth)
+        exhaustive=True, variants=len(variants), depth=depth, lazy_regenerations_skipped=skips)
     ctx.assumptions += [
         'edits are strictly newer than the last generation (ns timestamps); equal-timestamp edits are excluded: every '
         'mtime-based tool misses them',
